@@ -247,6 +247,7 @@ Lemma read_content_eq : forall st len encoding indent line_endings keep,
         match split_lines content newline true with
         | Err e => CExc e
         | Ok lines =>
+            if negb (bends newline content) then CParse ln else
             decode_check st (stream_after st len) (List.length lines) (enc_name encoding) keep newline
                          (strip_indent indent content lines)
         end
@@ -433,6 +434,7 @@ Theorem no_final_newline_bytes : forall st len enc ind le keep newline lines,
 Proof.
   intros st len enc ind le keep newline lines Hc He Hi Hnl Hsl Hk Hends. rewrite read_content_eq. cbv zeta.
   rewrite Hc, Hi, Hnl, Hsl. unfold decode_check, finish.
+  destruct (negb (bends newline (content_bytes st len))); [destruct enc as [[z|s]|]; [contradiction| |]; reflexivity|].
   destruct enc as [[z|s]|]; [contradiction| |].
   - destruct Hk as [Hk| ->]; [discriminate Hk|]. cbn [enc_name]. rewrite Hends. reflexivity.
   - cbn [enc_name]. rewrite Hends. reflexivity.
@@ -449,7 +451,21 @@ Theorem no_final_newline_text : forall st len e ind le newline lines t nlt,
   read_content st len (Some (VStr e)) ind le false = CParse (st_linenum st).
 Proof.
   intros st len e ind le newline lines t nlt Hc Hi Hnl Hsl Hd1 Hd2 Hends. rewrite read_content_eq. cbv zeta.
-  cbn [enc_name]. rewrite Hc, Hi, Hnl, Hsl. unfold decode_check, finish. rewrite Hd1, Hd2, Hends. reflexivity.
+  cbn [enc_name]. rewrite Hc, Hi, Hnl, Hsl. unfold decode_check, finish. rewrite Hd1, Hd2, Hends.
+  destruct (negb _); reflexivity.
+Qed.
+
+(* ... raw case: the bytes read must themselves end with the newline, whatever indentation stripping and decoding
+   would make of them (e.g. "a\n  " with indent=2 is rejected although the stripped content "a\n" ends with "\n") *)
+Theorem no_final_newline_raw : forall st len enc ind le keep newline lines,
+  is_nil (content_bytes st len) = false -> enc_valid enc -> indent_valid ind ->
+  nl_res_of le (enc_name enc) (content_bytes st len) = Ok newline ->
+  split_lines (content_bytes st len) newline true = Ok lines ->
+  bends newline (content_bytes st len) = false ->
+  read_content st len enc ind le keep = CParse (st_linenum st).
+Proof.
+  intros st len enc ind le keep newline lines Hc He Hi Hnl Hsl Hends. rewrite read_content_eq. cbv zeta.
+  rewrite Hc, Hi, Hnl, Hsl, Hends. destruct enc as [[z|s]|]; [contradiction| |]; reflexivity.
 Qed.
 
 (* lifted to the iteration: the error is on the line after the header *)
@@ -642,6 +658,7 @@ Lemma read_content_ok_inv : forall st len enc ind le keep p st2,
     nl_res_of le (enc_name enc) (content_bytes st len) = Ok newline /\
     split_lines (content_bytes st len) newline true = Ok lines /\
     st2 = state_after st (stream_after st len) (List.length lines) /\
+    bends newline (content_bytes st len) = true /\
     match enc_name enc, keep with
     | Some e, false =>
         exists t nlt, py_decode (strip_indent ind (content_bytes st len) lines) e = Ok t /\
@@ -658,7 +675,8 @@ Proof.
      else match nl_res_of le (enc_name enc) (c0 :: ct) with
           | Ok newline =>
               match split_lines (c0 :: ct) newline true with
-              | Ok lines => decode_check st (stream_after st len) (List.length lines) (enc_name enc) keep newline
+              | Ok lines => if negb (bends newline (c0 :: ct)) then CParse (st_linenum st) else
+                            decode_check st (stream_after st len) (List.length lines) (enc_name enc) keep newline
                                          (strip_indent ind (c0 :: ct) lines)
               | Err e => CExc e
               end
@@ -670,14 +688,23 @@ Proof.
   destruct (nl_res_of le (enc_name enc) (c0 :: ct)) as [newline|e] eqn:Hnl; [|destruct (caught_as_parse e); discriminate H].
   destruct (split_lines (c0 :: ct) newline true) as [lines|e] eqn:Hsl; [|discriminate H].
   exists newline, lines. split; [reflexivity|]. split; [exact Hsl|].
+  destruct (bends newline (c0 :: ct)) eqn:Hraw; [|discriminate H]. cbn [negb] in H.
+  cut (st2 = state_after st (stream_after st len) (List.length lines) /\
+       match enc_name enc, keep with
+       | Some e, false =>
+           exists t nlt, py_decode (strip_indent ind (c0 :: ct) lines) e = Ok t /\
+                         py_decode newline e = Ok nlt /\ suffixb N.eqb nlt t = true /\ p = PText t
+       | _, _ => bends newline (strip_indent ind (c0 :: ct) lines) = true /\
+                 p = PBytes (strip_indent ind (c0 :: ct) lines)
+       end); [intros [X Y]; auto|].
   unfold decode_check, finish in H.
   destruct (enc_name enc) as [e|]; [destruct keep|].
-  - destruct (bends newline _) eqn:Hb; [|discriminate H]. injection H as <- <-. auto.
+  - destruct (bends newline (strip_indent ind (c0 :: ct) lines)) eqn:Hb; [|discriminate H]. injection H as <- <-. auto.
   - destruct (py_decode (strip_indent ind (c0 :: ct) lines) e) as [t|ex]; [|destruct (caught_as_parse ex); discriminate H].
     destruct (py_decode newline e) as [nlt|ex]; [|destruct (caught_as_parse ex); discriminate H].
     destruct (suffixb N.eqb nlt t) eqn:Hs; [|discriminate H]. injection H as <- <-.
     split; [reflexivity|]. exists t, nlt. auto.
-  - destruct (bends newline _) eqn:Hb; [|discriminate H]. injection H as <- <-. auto.
+  - destruct (bends newline (strip_indent ind (c0 :: ct) lines)) eqn:Hb; [|discriminate H]. injection H as <- <-. auto.
 Qed.
 
 (* the bytes read are the next bytes of the stream, and the stream continues right after them *)
@@ -1183,6 +1210,9 @@ Definition c03_no_final_nl : bytes :=
 (* A.5, text case: a preamble whose declared length stops before the newline *)
 Definition c03_no_final_nl_text : bytes :=
   c03_main ++ B "#.preamble: length=2" ++ c03_nl ++ B "ab" ++ c03_nl.
+(* A.5, raw case: an indented preamble whose bytes end with indentation only: "a\n  " stripped is "a\n" *)
+Definition c03_no_final_nl_raw : bytes :=
+  c03_main ++ B "#.preamble: indent=2, length=4" ++ c03_nl ++ B "a" ++ c03_nl ++ B "  ".
 (* A.6 *)
 Definition c03_bad_json : bytes :=
   c03_main ++ B "#.meta: format=json, length=3" ++ c03_nl ++ B "{x" ++ c03_nl.
